@@ -55,6 +55,24 @@ def run(chk, replay=None):
         vlib.log("[trace] " + desc)
         chk.disagree("C09:trace:%s:%s" % (msg[:70], pid.split("-")[0]), desc,
                      {"plan": pid, "obsErr": msg, "trace": [json.loads(x) for x in lines[st:en]][:300]})
+    # API histories of MuxerApi.tla (start gate, registration, diffusion mode, Stop, peer close) replayed on a
+    # real muxer: only the clauses C09 states alarm here (an offending segment did not end the connection
+    # with an error; a segment reached a receiver it was not addressed to); the life-cycle clauses are
+    # reported by bin/extras as observations
+    import random
+    r = vlib.run_tlc("net/MuxerApi", cfg="MuxerApiThorough.cfg" if thorough else "MuxerApi.cfg", workers=8,
+                     timeout=1500, deadlock=False)
+    vlib.tlc_must_pass(r, "MuxerApi")
+    chk.add_tlc("MuxerApi", r)
+    rows = [json.loads(json.loads(m.group(1))) for m in (vlib._RE_BEH.match(l) for l in r.out.splitlines()) if m]
+    if not rows:
+        raise vlib.MachineryError("MuxerApi printed no behaviours")
+    random.Random(chk.seed).shuffle(rows)
+    rows = rows[: (8000 if thorough else 1200)]
+    bf = os.path.join(out, "api.ndjson")
+    vlib.write_ndjson(bf, rows)
+    vlib.run_driver(chk, vlib.go_build("muxapi"), ["run", bf], timeout=1500,
+                    keep=lambda rec: rec["key"].startswith("muxapi:c09-"))
     chk.traces = len(starts) - len(rejects)
     chk.sample({"plan": plans[0]})
     chk.extra["binding"] = "TV (MuxTrace.tla on traces of real muxers incl. an independent wire tap) + RP (TLC-enumerated inbound streams with predicted deliveries)"
